@@ -23,6 +23,16 @@ type leafPool[T any] struct {
 	vals []T
 	cmp  func(a, b T) (c int, defined bool) // reference order
 	show func(v T) string
+	// differ: the two values are certainly not the same value although the reference order says nothing
+	// about them (a NaN next to a number, two different complex numbers): they must not rank or compare equal
+	differ func(a, b T) bool
+}
+
+func differFloat[T float32 | float64](a, b T) bool { return (a != a) != (b != b) }
+
+func differComplex[T complex64 | complex128](a, b T) bool {
+	nan := func(c T) bool { return c != c }
+	return !nan(a) && !nan(b) && a != b
 }
 
 func cmpOrdered[T int | int8 | int16 | int32 | int64 | uint | uint8 | uint16 | uint32 | uint64 | string](a, b T) (int, bool) {
@@ -147,6 +157,9 @@ func checkPool[T any](p leafPool[T], typ string, i int, prop string) (v *core.Vi
 		if fr := fresh.RankValues(a, b); fr != rab {
 			return core.Violate(prop+"/leaf/depends-on-history/"+typ, "%s: RankValues(%s, %s) = %v on a reused collator, %v on a fresh one", typ, p.show(a), p.show(b), rab, fr), st, false
 		}
+		if p.differ != nil && p.differ(a, b) && (cab || rab == age.EqualRank) {
+			return core.Violate(prop+"/different-values-equal/"+typ, "%s: %s and %s are different values, but CompareValues = %v and RankValues = %v", typ, p.show(a), p.show(b), cab, rab), st, false
+		}
 		if prop == "C08" {
 			if cab != (rab == age.EqualRank) {
 				return core.Violate("C08/compare-vs-rank/"+typ, "%s: CompareValues(%s, %s) = %v but RankValues = %v", typ, p.show(a), p.show(b), cab, rab), st, false
@@ -259,37 +272,37 @@ func execLeaf(prop string) func(leafCase, core.Source) core.Result {
 					return 1, true
 				}
 				return 0, true
-			}, showAny[bool]}, c.Type, c.I, prop)
+			}, showAny[bool], nil}, c.Type, c.I, prop)
 		case "int8":
-			v, st, nt = checkPool(leafPool[int8]{signedPool[int8](8), cmpOrdered[int8], showAny[int8]}, c.Type, c.I, prop)
+			v, st, nt = checkPool(leafPool[int8]{signedPool[int8](8), cmpOrdered[int8], showAny[int8], nil}, c.Type, c.I, prop)
 		case "int16":
-			v, st, nt = checkPool(leafPool[int16]{signedPool[int16](16), cmpOrdered[int16], showAny[int16]}, c.Type, c.I, prop)
+			v, st, nt = checkPool(leafPool[int16]{signedPool[int16](16), cmpOrdered[int16], showAny[int16], nil}, c.Type, c.I, prop)
 		case "int32/rune":
-			v, st, nt = checkPool(leafPool[rune]{runePool, cmpOrdered[int32], showAny[rune]}, c.Type, c.I, prop)
+			v, st, nt = checkPool(leafPool[rune]{runePool, cmpOrdered[int32], showAny[rune], nil}, c.Type, c.I, prop)
 		case "int64":
-			v, st, nt = checkPool(leafPool[int64]{signedPool[int64](64), cmpOrdered[int64], showAny[int64]}, c.Type, c.I, prop)
+			v, st, nt = checkPool(leafPool[int64]{signedPool[int64](64), cmpOrdered[int64], showAny[int64], nil}, c.Type, c.I, prop)
 		case "int":
-			v, st, nt = checkPool(leafPool[int]{signedPool[int](64), cmpOrdered[int], showAny[int]}, c.Type, c.I, prop)
+			v, st, nt = checkPool(leafPool[int]{signedPool[int](64), cmpOrdered[int], showAny[int], nil}, c.Type, c.I, prop)
 		case "uint8":
-			v, st, nt = checkPool(leafPool[uint8]{unsignedPool[uint8](8), cmpOrdered[uint8], showAny[uint8]}, c.Type, c.I, prop)
+			v, st, nt = checkPool(leafPool[uint8]{unsignedPool[uint8](8), cmpOrdered[uint8], showAny[uint8], nil}, c.Type, c.I, prop)
 		case "uint16":
-			v, st, nt = checkPool(leafPool[uint16]{unsignedPool[uint16](16), cmpOrdered[uint16], showAny[uint16]}, c.Type, c.I, prop)
+			v, st, nt = checkPool(leafPool[uint16]{unsignedPool[uint16](16), cmpOrdered[uint16], showAny[uint16], nil}, c.Type, c.I, prop)
 		case "uint32":
-			v, st, nt = checkPool(leafPool[uint32]{unsignedPool[uint32](32), cmpOrdered[uint32], showAny[uint32]}, c.Type, c.I, prop)
+			v, st, nt = checkPool(leafPool[uint32]{unsignedPool[uint32](32), cmpOrdered[uint32], showAny[uint32], nil}, c.Type, c.I, prop)
 		case "uint64":
-			v, st, nt = checkPool(leafPool[uint64]{unsignedPool[uint64](64), cmpOrdered[uint64], showAny[uint64]}, c.Type, c.I, prop)
+			v, st, nt = checkPool(leafPool[uint64]{unsignedPool[uint64](64), cmpOrdered[uint64], showAny[uint64], nil}, c.Type, c.I, prop)
 		case "uint":
-			v, st, nt = checkPool(leafPool[uint]{unsignedPool[uint](64), cmpOrdered[uint], showAny[uint]}, c.Type, c.I, prop)
+			v, st, nt = checkPool(leafPool[uint]{unsignedPool[uint](64), cmpOrdered[uint], showAny[uint], nil}, c.Type, c.I, prop)
 		case "float32":
-			v, st, nt = checkPool(leafPool[float32]{f32Pool, cmpFloat[float32], showAny[float32]}, c.Type, c.I, prop)
+			v, st, nt = checkPool(leafPool[float32]{f32Pool, cmpFloat[float32], showAny[float32], differFloat[float32]}, c.Type, c.I, prop)
 		case "float64":
-			v, st, nt = checkPool(leafPool[float64]{f64Pool, cmpFloat[float64], func(f float64) string { return fmt.Sprintf("%v(%#x)", f, math.Float64bits(f)) }}, c.Type, c.I, prop)
+			v, st, nt = checkPool(leafPool[float64]{f64Pool, cmpFloat[float64], func(f float64) string { return fmt.Sprintf("%v(%#x)", f, math.Float64bits(f)) }, differFloat[float64]}, c.Type, c.I, prop)
 		case "complex64":
-			v, st, nt = checkPool(leafPool[complex64]{c64Pool, cmpComplex[complex64], showAny[complex64]}, c.Type, c.I, prop)
+			v, st, nt = checkPool(leafPool[complex64]{c64Pool, cmpComplex[complex64], showAny[complex64], differComplex[complex64]}, c.Type, c.I, prop)
 		case "complex128":
-			v, st, nt = checkPool(leafPool[complex128]{c128Pool, cmpComplex[complex128], showAny[complex128]}, c.Type, c.I, prop)
+			v, st, nt = checkPool(leafPool[complex128]{c128Pool, cmpComplex[complex128], showAny[complex128], differComplex[complex128]}, c.Type, c.I, prop)
 		default:
-			v, st, nt = checkPool(leafPool[string]{strPool, cmpOrdered[string], func(s string) string { return fmt.Sprintf("%q", s) }}, c.Type, c.I, prop)
+			v, st, nt = checkPool(leafPool[string]{strPool, cmpOrdered[string], func(s string) string { return fmt.Sprintf("%q", s) }, nil}, c.Type, c.I, prop)
 		}
 		res.Violation = v
 		res.NonTrivial = nt || prop == "C08"
